@@ -22,7 +22,7 @@ import (
 //	want(kind)  = 1 if typeReferencePtr prefixes '*', else 0
 //	got(kind)   = 1 + star(typeReference)  when the result is wrapped by the
 //	              generated `_T_ptr` helper (func(v X) *X with X = typeReference)
-//	            = 1                        when wrapped by a ptr.<Prim> function
+//	            = 1                        when wrapped without declaring a helper (a ptr.<Prim> function)
 //	            = depth(ConstantValue)     when ConstantValue's result is passed on,
 //	              which is 1 for struct roots (constantStruct emits &T{...}), else 0
 func checkConstPtrAgree(c *core.Ctx, l *core.Ledger, rule string) {
@@ -132,7 +132,7 @@ func checkConstPtrAgree(c *core.Ctx, l *core.Ledger, rule string) {
 				res["1"] = true
 			case r == "pass":
 				res["0"] = true
-			case r == "wrap" && helper && !prim:
+			case r == "wrap" && helper:
 				s := star(tr, kind, root)
 				if s == "0" {
 					res["1"] = true
@@ -141,7 +141,9 @@ func checkConstPtrAgree(c *core.Ctx, l *core.Ledger, rule string) {
 				} else {
 					res["?"] = true
 				}
-			case r == "wrap" && prim && !helper:
+			case r == "wrap":
+				// no helper was declared on the way: the wrapper is a function of the ptr package, func(T) *T
+				_ = prim
 				res["1"] = true
 			default:
 				res["?"] = true
